@@ -167,7 +167,7 @@ def run(chk: vlib.Check) -> None:
             expose = pc.expose_table("\n".join(p.get("extensions", [])), types)
             demo_recs += records_of(o, None, expose, p["id"])
     chk.cov["demos"] = demo_out
-    dprinted = pc.judge_all(chk, "ObsC25.tla", demo_recs, tag="demo", chunk=40) if demo_recs else []
+    dprinted = pc.judge_all(chk, "ObsC25.tla", demo_recs, tag="demo", chunk=40, coverage_probe=False) if demo_recs else []
 
     # ---- verdicts ------------------------------------------------------------------------------
     stats = [v for t, v in printed + dprinted if t == "STAT"]
